@@ -1,7 +1,7 @@
 T = "GeomV.C04."
 CFG = {
     "id": "C04",
-    "lean_modules": ["GeomV.C04.Proofs"],
+    "lean_modules": ["GeomV.C04.Proofs", "GeomV.C04.Ties", "GeomV.C04.Src"],
     "exe": "geomv_c04",
     "go_cmd": "c04",
     "stages": ["go:gen", "go:impl", "lean:judge"],
@@ -16,9 +16,19 @@ CFG = {
         "C04_spec_envelope", "C04_spec_join", "C04_spec_sharePoint", "C04_spec_intersection", "C04_spec_empty",
         # the executed coordinate type is an instance of the theorems
         "C04_exec", "FKey.instances_agree",
+        # T1: definitions regenerated from bounds.go / point.go of the tree under test = the model's (rfl)
+        "C04_tie_pointEquals", "C04_tie_NewBounds", "C04_tie_NewBoundsPoint", "C04_tie_Copy", "C04_tie_Empty",
+        "C04_tie_extendPoint", "C04_tie_extendPoints", "C04_tie_extendPointss", "C04_tie_Extend", "C04_tie_Overlaps",
+        "C04_tie_Within", "C04_tie_Intersection", "C04_tie_Area", "C04_tie_Centroid",
+        # the box theorems restated for the regenerated definitions
+        "C04_overlaps_src", "C04_intersection_src", "C04_extend_join_src", "C04_extend_laws_src", "C04_empty_src",
+        "C04_copy_src", "C04_newBounds_src", "C04_extendPoints_src",
     ]],
     "trusted_base": [
         "Lean 4.33.0 kernel; axioms of every theorem printed by #print axioms must be within {propext, Classical.choice, Quot.sound}",
+        "T1: harness/cmd/c04/extract.go (go/ast, ~600 lines, translation table in its header) regenerates lean/GeomV/C04/Gen.lean from "
+        "bounds.go/point.go of the tree under test on every run; Ties.lean proves Gen.f = Model.f by rfl for 14 functions; a function "
+        "outside the translatable subset makes Gen.lean fail to elaborate and is reported by name",
         "model lean/GeomV/C04/Model.lean (bounds.go; Len/Points/Bounds of the eight types, closures as state machines with faulting "
         "indexing) is tied to /repo by the correspondence run on every check: Len, the drained Points() sequence (bit-exact) or the "
         "number of points returned before a panic, Bounds (by float value), Extend/Overlaps/Intersection/Copy/Empty results",
@@ -47,3 +57,50 @@ CFG = {
                    "which the theorems are proved. Classes ending in -outside are inputs outside a theorem's hypothesis: "
                    "correspondence is still checked there, the specification is not applied.",
 }
+
+
+def pregen(check):
+    """T1: regenerate Gen.lean from bounds.go/point.go of the tree under test (written only when it changed);
+    name the function of every tie that no longer holds."""
+    import os, re, subprocess
+    import vcheck
+    ok, gobin, out = vcheck.go_build("c04", check.rundir)
+    if not ok:
+        return  # reported as a broken tie by the harness build of the main flow
+    p = subprocess.run([gobin, "extract", "--repo", vcheck.REPO], stdout=subprocess.PIPE, stderr=subprocess.PIPE, text=True)
+    if p.returncode not in (0, 3) or not p.stdout.startswith("import"):
+        check.broken.append("T1 tie: extractor failed: " + p.stderr.strip()[-300:])
+        return
+    if p.returncode == 3:
+        # Gen.lean is still written: the untranslatable function is replaced by a declaration that does not elaborate
+        check.broken.append("T1 tie: " + p.stderr.strip()[-600:])
+    gen = os.path.join(vcheck.LEAN, "GeomV", "C04", "Gen.lean")
+    old = open(gen).read() if os.path.exists(gen) else ""
+    if old != p.stdout:
+        with open(gen + ".tmp", "w") as f:
+            f.write(p.stdout)
+        os.replace(gen + ".tmp", gen)
+    if p.returncode == 3:
+        return
+    # which ties hold?  (fast: Ties.lean is 14 rfl's)
+    with vcheck.Lock("lake"):
+        b = subprocess.run(["lake", "build", "GeomV.C04.Gen"], cwd=vcheck.LEAN, stdout=subprocess.PIPE, stderr=subprocess.STDOUT, text=True)
+        if b.returncode != 0:
+            check.broken.append("T1 tie: regenerated Gen.lean does not elaborate: " + " | ".join(re.findall(r"error: .*", b.stdout)[:3]))
+            return
+        t = subprocess.run(["lake", "env", "lean", "GeomV/C04/Ties.lean"], cwd=vcheck.LEAN, stdout=subprocess.PIPE, stderr=subprocess.STDOUT, text=True)
+    if t.returncode != 0:
+        src = open(os.path.join(vcheck.LEAN, "GeomV", "C04", "Ties.lean")).read().split("\n")
+        names = []
+        for m in re.finditer(r"Ties\.lean:(\d+):\d+: error", t.stdout):
+            ln = int(m.group(1))
+            for k in range(ln - 1, -1, -1):
+                mm = re.match(r"theorem (C04_tie_\w+)", src[k])
+                if mm:
+                    if mm.group(1) not in names:
+                        names.append(mm.group(1))
+                    break
+        check.broken.append("T1 tie broken (the Go function no longer denotes the model's function): " + ", ".join(names or ["?"]))
+
+
+CFG["pregen"] = pregen
